@@ -748,6 +748,8 @@ def der_decode_partial(data: bytes) -> Tuple[object, int]:
             value = RawDERObject(tag, content, asn1_class)
     except RecursionError:
         raise ASN1DecodeError('ASN.1 value is nested too deeply') from None
+    except (ASN1EncodeError, UnicodeDecodeError) as exc:
+        raise ASN1DecodeError(str(exc)) from None
 
     return value, end
 
